@@ -42,7 +42,7 @@ def _reraises(repo, f, h):
     return False
 
 
-def _landing(repo, f, call, exc_q):
+def _landing(repo, f, call, exc_q, follow_reraise=True):
     """the handler in which an exception of class exc_q raised at `call` is finally handled
     (following unconditional re-raises outward), or None if it escapes the function"""
     node = call
@@ -54,7 +54,7 @@ def _landing(repo, f, call, exc_q):
         if in_body:
             for h in tr.handlers:
                 if any(repo.is_subclass(exc_q, t) for t in _handler_types(repo, f, h)):
-                    if _reraises(repo, f, h):
+                    if follow_reraise and _reraises(repo, f, h):
                         break
                     return h
         node = tr
